@@ -137,3 +137,11 @@ claim("C24", "E3-chain", "exploration", "transition monitor over consecutive com
 claim("C25", "E3-chain", "exploration", "monitor on post-BeginBlock / per-tx snapshots of chaos histories: slash accounting, below-minimum => jailed+queued, dispatch results vs jailed set, pre-state of every accepted unjail",
       "downtime and double-sign slashes (including ones capped at the whole stake) must burn exactly what the nodes lose, from pool and supply alike; nodes under the minimum are jailed and queued to unstake at every observed point; ~2000 dispatches per run never list a jailed node; every accepted unjail had an authorized signer, the minimum stake and an expired jail period; held-on-observed",
       E3NOTE + "; per-tx snapshots as in TXNOTE", "DESIGN.md §4 C25")
+HOOK_COMMITS.append("8945e6b verif hook H2: Newton-iteration counter in types/decimal.go ApproxRoot (types/verif_on.go, types/verif_off.go)")
+ENGINES[-3]["serves_properties"] += ["C37", "C43"]
+claim("C37", "E3-chain", "exploration", "reference-schedule monitor on the codec activation predicates probed inside the node after every block + restart twin (fresh OS process over the same on-disk DBs vs never-restarted process)",
+      "generated sequences of upgrade messages (feature-only, version upgrades carrying features, duplicates, re-scheduling, non-owner) on the mainnet-style bootstrap; every predicate value on a height grid and the stored gov/upgrade parameter compared with a reference schedule; the node is ended at a PRNG-chosen height and a new process must derive the same heights/schedule and continue with identical app hashes; held-on-observed; five known findings share one root cause (message delivered below the derived codec-upgrade height)",
+      E3NOTE + "; chain heights stay far below 30024, where the codec-upgrade height is derived rather than constant", "DESIGN.md §4 C37")
+claim("C43", "E3-chain", "exploration", "export/import round-trip monitor: decoded exported genesis vs decoded live stores, validated by the app's own validators, then a new process initialised from it continues in lockstep with the source node",
+      "chaos histories (stake/unstake/jail/slash/param changes/DAO) exported at PRNG-chosen heights: every account, validator (incl. jailed/unstaking), application, parameter, signing info and claim of the live state must appear in the export and vice versa, module ValidateGenesis must accept it, and an importer process fed the same following blocks must report the same record-level state transitions; held-on-observed; two known findings (importer exits)",
+      E3NOTE, "DESIGN.md §4 C43")
